@@ -34,7 +34,8 @@ def plan(tier, seed):
     jobs = []
     for ci in range(17):
         jobs.append({"name": "rt%02d" % ci, "spec": {"kind": "roundtrip", "curve": ci}})
-    mut_curves = [2, 13, 6] if tier == "quick" else list(range(17))  # NIST256p, SECP112r1, BRAINPOOLP160r1, NIST521p
+    # quick: NIST256p, SECP112r1, BRAINPOOLP160r1 and NIST224p (the only shipped field prime that is 1 mod 4: another square-root route)
+    mut_curves = [2, 13, 6, 1] if tier == "quick" else list(range(17))
     for ci in mut_curves:
         parts = 3 if tier == "quick" else 4
         for p in range(parts):
